@@ -271,7 +271,7 @@ theorem build_core_WG (u : U) (e : SaExpr) (hu : FragU u)
   rcases hu with h | h | h
   · exact ⟨(build_num u e h hb).core, (build_num u e h hb).wg⟩
   · exact ⟨(build_bool u e h hb).core, (build_bool u e h hb).wg⟩
-  · exact ⟨(build_str u e h hb).core, (build_str u e h hb).wg⟩
+  · exact ⟨(build_str u e h hb).1.core, (build_str u e h hb).1.wg⟩
 
 /-- **api_tree_read_back** — the end-to-end statement for the fragment: for EVERY API-call tree
     `u` (any size, any nesting), every dialect's compiler and every grammar compatible with
@@ -454,11 +454,11 @@ example : NumU bracketTree = true ∧ noIsGen bracketTree = true ∧ (build brac
     value, CAST interpreted as the identity): 3 gives COALESCE(3, 3 + 7) = 3 by the first
     branch, -4 gives the CAST of the subquery by the second, NULL reaches the third branch
     (`b IS NULL`) whose simple CASE matches nothing and has no ELSE: NULL -/
-example : @evalNumU ⟨fun _ _ => .null, fun _ v => v, fun _ _ => .null⟩ (fun _ => .int 3) .sqlite bracketTree = .int 3 := by
+example : @evalNumU ⟨fun _ _ => .null, fun _ v => v, fun _ _ => .null, fun _ _ _ => none, fun _ _ _ => none⟩ (fun _ => .int 3) .sqlite bracketTree = .int 3 := by
   decide +kernel
-example : @evalNumU ⟨fun _ _ => .null, fun _ v => v, fun _ _ => .null⟩ (fun _ => .int (-4)) .sqlite bracketTree = .int (-4) := by
+example : @evalNumU ⟨fun _ _ => .null, fun _ v => v, fun _ _ => .null, fun _ _ _ => none, fun _ _ _ => none⟩ (fun _ => .int (-4)) .sqlite bracketTree = .int (-4) := by
   decide +kernel
-example : @evalNumU ⟨fun _ _ => .null, fun _ v => v, fun _ _ => .null⟩ (fun _ => .null) .sqlite bracketTree = .null := by
+example : @evalNumU ⟨fun _ _ => .null, fun _ v => v, fun _ _ => .null, fun _ _ _ => none, fun _ _ _ => none⟩ (fun _ => .null) .sqlite bracketTree = .null := by
   decide +kernel
 
 /-- the constructors establish the hypothesis `WG` (and stay in the fragment):
@@ -555,6 +555,20 @@ example : BoolU catTree = true ∧ noIsGen catTree = true ∧
 example : StrU f1Tree = true ∧
     (match build f1Tree with | some e => ConcatSafe .sqlite e | none => true) = false ∧
     (match build f1Tree with | some e => ConcatSafe .mysql e | none => false) = true := by
+  decide +kernel
+
+/-- non-vacuity for the LIKE family: `NOT ((s || t) ILIKE 'a/%' ESCAPE '/' AND s NOT LIKE t)` is a
+    boolean tree of the fragment; it builds, and on SQLite (`lower(…) LIKE lower(…) ESCAPE '/'`) as
+    on PostgreSQL (`ILIKE`) the text is read back as the emitted tree -/
+def likeTree : U :=
+  .not_ (.and_ [.like .ilike (some "/") (.bin .concat (.col "s" .str) (.col "t" .str)) (.ls "a/%"),
+                .like .notlike none (.col "s" .str) (.col "t" .str)])
+
+example : BoolU likeTree = true ∧ noIsGen likeTree = true ∧
+    (match build likeTree with | some e => ConcatSafe .sqlite e | none => false) = true ∧
+    (parse sqlite (renderU .sqlite likeTree).print).map G.skel = some (renderU .sqlite likeTree).norm.skel ∧
+    (parse postgresql (renderU .postgresql likeTree).print).map G.skel
+      = some (renderU .postgresql likeTree).norm.skel := by
   decide +kernel
 
 /-- **sqlite_concat_counterexample** (F1): `(1 + 2) || '3'` is emitted without parentheses and
